@@ -718,6 +718,25 @@ func Core() []*Program {
 		"a": {Cmds: []Cmd{call("b", "one"), call("b", "two"), {K: "dsh"}, sh(0)}},
 		"b": {Cmds: []Cmd{{K: "dsh"}, sh(0), {K: "dsh"}, sh(0)}},
 	}))
+	// a deduplicated task with a deferred command, awaited by two concurrent callers: both wait for ALL of it
+	add(mk("once-defer-two-callers", 0, []string{"a", "b", "c", "d"}, map[string]*Task{
+		"a": {Deps: []CallSite{dep("b"), dep("c")}, Cmds: []Cmd{sh(0)}},
+		"b": {Cmds: []Cmd{call("d", ""), sh(0)}},
+		"c": {Cmds: []Cmd{call("d", ""), sh(0)}},
+		"d": {Run: "once", Cmds: []Cmd{{K: "dsh"}, sh(0), {K: "dsh"}}},
+	}))
+	add(mk("when-changed-defer-two-deps", 0, []string{"a", "b", "c", "d"}, map[string]*Task{
+		"a": {Deps: []CallSite{dep("b"), dep("c")}, Cmds: []Cmd{sh(0)}},
+		"b": {Deps: []CallSite{depv("d", "one")}, Cmds: []Cmd{sh(0)}},
+		"c": {Deps: []CallSite{depv("d", "one")}, Cmds: []Cmd{sh(0)}},
+		"d": {Run: "when_changed", Cmds: []Cmd{{K: "dsh"}, sh(0)}},
+	}))
+	// values that differ only in their type (the integer 1, the string "1") are different sets of variable values;
+	// the callee's only entry is deferred, so that the value reaches no command text before the task runs
+	add(mk("when-changed-typed", 0, []string{"a", "w"}, map[string]*Task{
+		"a": {Cmds: []Cmd{call("w", "#1"), call("w", "1"), call("w", "#1"), call("w", "1"), sh(0)}},
+		"w": {Run: "when_changed", Cmds: []Cmd{{K: "dsh"}}},
+	}))
 	// two roots, sequential and parallel
 	for _, par := range []bool{false, true} {
 		p := mk(fmt.Sprintf("two-roots-par%v", par), 2, []string{"a", "b", "c"}, map[string]*Task{
